@@ -10,8 +10,9 @@ def typed_map(ctx):
                    wlen=40, budget=ctx.pick(100000, 1000000))
     # values that are equal under == without being the same value (float64: -0.0 and the zero value +0.0), and values
     # that cannot be compared at all (slices inside an `any`; without CompareAndSwap / CompareAndDelete, where sync.Map
-    # itself panics): what is stored is what was given
-    for variant, cfg in (("reffloat", "lts_map_f.cfg"), ("float", "lts_map_f.cfg"), ("anyslice", "lts_map_s.cfg")):
+    # itself panics): what is stored is what was given; and a key that is not equal to itself (float64 NaN): every store
+    # adds an entry that only Range still sees (TypedMap.tla `nan`), first replayed on a raw sync.Map as the reference
+    for variant, cfg in (("reffloat", "lts_map_f.cfg"), ("float", "lts_map_f.cfg"), ("anyslice", "lts_map_s.cfg"), ("refnan", "lts_map_n.cfg"), ("nankey", "lts_map_n.cfg")):
         lts_replay(ctx, "xsync", "TypedMap", cfg, "typedmap", variant=variant, depth=ctx.pick(3, 4), walks=ctx.pick(2000, 20000),
                    wlen=40, budget=ctx.pick(100000, 1000000))
 
